@@ -222,3 +222,15 @@ Proof. vm_compute. reflexivity. Qed.
 Example C07_incomplete_example :
   pipeline Z 0%Z (fun i j => Z.of_nat (10 * i + j)) 4 3%Z [2; 0]%Z = Err 5%Z.
 Proof. vm_compute. reflexivity. Qed.
+(* the translated source itself, run on concrete inputs: the same pipeline instance as above through the translations
+   of calculate_pairwise_distance_matrix_on_predictions, concat and to_dense (the metric reads samples 10 * i + j) ... *)
+Example C07_source_pipeline_example :
+  src_pipeline Z 0%Z (Z.eqb 0) Z Z (fun i => i) (fun t => t) (fun a b => (10 * a + b)%Z) 4 3%Z [2; 0; 2; 1]%Z
+  = Ok [[0; 10; 20; 30]; [10; 0; 21; 31]; [20; 21; 0; 32]; [30; 31; 32; 0]]%Z.
+Proof. vm_compute. reflexivity. Qed.
+(* ... and the degenerate object of C07_model_is_source_add_value's second clause: built for the empty last chunk of a
+   3 x 3 matrix cut in 4 (chunk_size 0), it refuses a valid pair with an IndexError *)
+Example C07_source_empty_chunk_object_example :
+  (dor m <- src_cdm_init Z 0%Z (Z.eqb 0) (cdm_blank Z) 3%Z 4%Z 3%Z None; src_cdm_add_value Z 0%Z (Z.eqb 0) m 1%Z 0%Z 5%Z)
+  = Err 98%Z.
+Proof. vm_compute. reflexivity. Qed.
